@@ -8,7 +8,7 @@
 (* TRACE = labelled step trace (records carry fn = innermost xenium        *)
 (* function of the access), KF = predicate to evaluate.                    *)
 (***************************************************************************)
-EXTENDS Integers, Sequences, TLC, Json, IOUtils
+EXTENDS Integers, Sequences, FiniteSets, TLC, Json, IOUtils
 
 H == ndJsonDeserialize(IOEnv.TRACE)
 N == Len(H)
@@ -64,8 +64,23 @@ C06_HeadTagBump(lo, hi) ==
           /\ H[j].v # H[i].v /\ H[j].v % 65536 = H[i].v % 65536
           /\ \A m \in j + 1 .. i - 1 : ~(H[m].e = "ld" /\ H[m].t = H[i].t /\ H[m].a = H[i].a /\ H[m].fn = "kirsch_bounded_kfifo_queue::try_push")
 
+\* C05: nikolaev_bounded_queue operated by more threads than it has entries.  nikolaev_scq's _threshold (3n-1, decremented by
+\* every failing dequeue, reset by an enqueue) then goes negative while the ring still holds (or is about to receive) an index:
+\* several try_push calls fail in the free ring's dequeue at the same time and keep decrementing after the only index has been
+\* returned.  From then on dequeues on that ring fail at once or miss the entry: the queue refuses try_push although it is empty
+\* and quiescent.  Signature: more client threads than the configured capacity, and a fetch_sub on a _threshold inside
+\* nikolaev_scq::dequeue that finds it already <= 0.
+C05_ThresholdUnderflow(lo, hi) ==
+  LET caps == {H[i].a : i \in {j \in lo .. hi : H[j].e = "cfg" /\ H[j].op = "kind_nikbounded"}}
+      clients == {H[i].t : i \in lo .. hi} \ {9}
+  IN /\ caps # {} /\ \A c \in caps : Cardinality(clients) > c
+     /\ \E k \in lo .. hi :
+          /\ H[k].e = "fas" /\ H[k].fn = "nikolaev_scq::dequeue" /\ H[k].t # 9
+          /\ (H[k].b = 0 /\ H[k].v <= 0) \/ H[k].b = -1
+
 Eval(lo, hi) == CASE IOEnv.KF = "C12_StaleCapacity" -> C12_StaleCapacity(lo, hi)
                   [] IOEnv.KF = "C06_HeadTagBump" -> C06_HeadTagBump(lo, hi)
+                  [] IOEnv.KF = "C05_ThresholdUnderflow" -> C05_ThresholdUnderflow(lo, hi)
                   [] IOEnv.KF = "C10_NestedAccessorDeref" -> C10_NestedAccessorDeref(lo, hi)
                   [] IOEnv.KF = "C10_StaleBlockRead" -> C10_StaleBlockRead(lo, hi)
                   [] OTHER -> FALSE
